@@ -368,3 +368,7 @@ def run(pm, ctx):
                      'get_imported_namespaces keeps a namespace referenced through data types, '
                      'aliases or annotation types (shared with C09-R4)', only=lambda o:
                      'get_imported_namespaces' in o['instance'] or 'ApiNamespace' in o['where'])
+
+    from ..conddrift import run_decisions
+    from ..ownership import OWN
+    run_decisions(pm, ctx, 'C16-RD', OWN['C16'])
